@@ -219,6 +219,9 @@ func runC17(w *World, c *Check) {
 	c.Rule("C17.faithful", "MICToken.Verify and WrapToken.Verify never return (false, nil)", 4)
 	c.Rule("C17.verify", "Verify is true only for a whole-slice equality of the computed and the presented checksum", 4)
 	c.Rule("C17.reject", "decoders reject short input, wrong token id, wrong filler, wrong direction flag (both ways) and an EC larger than the remaining bytes", 11)
+	c.Rule("C17.no-clobber", "computing or verifying a token's checksum, and encoding the token, never write into the token's own payload or checksum bytes (nor the key): a token that was built or decoded still verifies afterwards", 8)
+	ruleNoClobber(w, c, "C17.no-clobber", []string{"gssapi.(*WrapToken).computeCheckSum", "gssapi.(*WrapToken).Verify", "gssapi.(*WrapToken).Marshal", "gssapi.(*MICToken).checksum", "gssapi.(*MICToken).Verify", "gssapi.(*MICToken).Marshal"},
+		"the method does not write into the bytes of its receiver's payload/checksum or of the key")
 	c.Rule("C17.consts", "key usages 22–25, flag bits 1/2/4, token ids; initiator tokens: usage 24/25, flags 0, EC = HMAC length", 12)
 
 	// ---- layout ---------------------------------------------------------------------------
@@ -310,13 +313,33 @@ func runC17(w *World, c *Check) {
 		{"gssapi.(*WrapToken).computeCheckSum", `gssapi\.getChecksumHeader\(recv\.Flags, recv\.SndSeqNum\)`},
 		{"gssapi.(*MICToken).checksum", `gssapi\.\(\*MICToken\)\.getMICChecksumHeader\(recv\)`},
 	} {
-		buf := `make\(\[\]byte, \(16 \+ len\(recv\.Payload\)\)\)`
-		checkCalls(w, c, "C17.input", ck.fk, []CallSpec{
-			{Name: "payload-first", Desc: "the checksummed buffer starts with the payload", Callee: `copy`, Want: `copy\(` + buf + `\[0:\], recv\.Payload\)`},
-			{Name: "header-after-payload", Desc: "the 16-byte header (with the token's flags and sequence number) follows the payload", Callee: `copy`, Want: `copy\(` + buf + `\[len\(recv\.Payload\):\], ` + ck.hdr + `\)`},
-			{Name: "keyed", Desc: "GetChecksumHash of the key's etype, with the key value, that buffer and the usage parameter", Callee: `crypto/etype\.EType\.GetChecksumHash`,
-				Want: `crypto/etype\.EType\.GetChecksumHash\(crypto\.GetEtype\(key\.KeyType\)#0, key\.KeyValue, ` + buf + `, keyUsage\)`},
-		})
+		fn := w.Func(ck.fk)
+		if fn == nil {
+			c.Missing("C17.input", ck.fk)
+			continue
+		}
+		fa := NewFuncAn(w, fn)
+		// the checksummed bytes, however the buffer is assembled: payload at 0, the 16-byte header after it
+		calls := fa.CallsDeep(`crypto/etype\.EType\.GetChecksumHash`)
+		okFirst, okHdr, okKeyed := false, false, false
+		detail := fmt.Sprintf("%d GetChecksumHash calls", len(calls))
+		if len(calls) == 1 {
+			dc := calls[0]
+			args := dc.ci.Common().Args // key, data, usage (receiver is the interface value)
+			if len(args) == 3 {
+				ps, total := dc.fa.BufferPlaces(args[1])
+				detail = "checksummed bytes: " + placesString(ps) + " (length " + total + ")"
+				if len(ps) == 2 && total == "16+len(recv.Payload)" {
+					okFirst = ps[0].What == "recv.Payload" && ps[0].Off == "0" && ps[0].End == "len(recv.Payload)"
+					okHdr = fullMatch(ck.hdr+`(\[:\])?`, ps[1].What) && ps[1].Off == "len(recv.Payload)"
+				}
+				okKeyed = dc.fa.M(`crypto\.GetEtype\(key\.KeyType\)#0`, dc.fa.R.R(dc.ci.Common().Value)) && dc.fa.M(`key\.KeyValue`, dc.fa.R.R(args[0])) && dc.fa.M(`keyUsage`, dc.fa.R.R(args[2]))
+			}
+		}
+		where := w.Pos(fn.Pos())
+		c.Decide(okFirst, "C17.input", ck.fk, "payload-first", where, "the checksummed buffer starts with the payload", detail)
+		c.Decide(okHdr, "C17.input", ck.fk, "header-after-payload", where, "the 16-byte header (with the token's flags and sequence number) follows the payload", detail)
+		c.Decide(okKeyed, "C17.input", ck.fk, "keyed", where, "GetChecksumHash of the key's etype, with the key value, that buffer and the usage parameter", detail)
 	}
 	for _, sk := range []struct{ fk, call string }{
 		{"gssapi.(*WrapToken).SetCheckSum", `gssapi\.\(\*WrapToken\)\.computeCheckSum\(recv, key, keyUsage\)`},
